@@ -342,6 +342,35 @@ def r9_hooks(text, hooks, log):
     return text
 
 
+def decl_order(docs, func_name):
+    """names of the parameters and locals of func_name in declaration order (first definition found)"""
+    target = {}
+
+    def find_fn(n, parents):
+        if n.get('kind') in ('CXXMethodDecl', 'FunctionDecl') and n.get('name') == func_name and any(
+                c.get('kind') == 'CompoundStmt' for c in n.get('inner', []) or []):
+            target.setdefault('fn', n)
+    for d in docs:
+        walk(d, find_fn)
+    names = []
+    if 'fn' in target:
+        def v(n, parents):
+            if n.get('kind') in ('ParmVarDecl', 'VarDecl') and n.get('name') and n['name'] not in names:
+                names.append(n['name'])
+        walk(target['fn'], v)
+    return names
+
+
+def hook_args_by_order(docs, text, func_name, k, casts):
+    """hook arguments derived from the clang-computed modified set, in declaration order, so that renaming a local does not
+    break the hook: casts = list of cast prefixes per position, e.g. ['&', '&'] or ['(const void**)&', ...]"""
+    mod = loop_modified(docs, text, func_name, k)
+    order = [n for n in decl_order(docs, func_name) if n in mod]
+    if len(order) != len(casts):
+        raise ExtractError('loop %s.%d modifies %s; its hook expects %d variables' % (func_name, k, order, len(casts)))
+    return ', '.join(c + n for c, n in zip(casts, order)), order
+
+
 def loop_modified(docs, text, func_name, k):
     """Over-approximate set of variables (declared outside loop k of function func_name) that the loop may modify:
     every DeclRefExpr to a non-const local/parameter inside the loop that is not directly an lvalue-to-rvalue read."""
